@@ -39,7 +39,7 @@ theorem popOne_mem {undo : List Tk} {t : Tk} (h : popOne undo = some t) : t ∈ 
 /-! ### loop-thread steps -/
 
 theorem TaskInv.execute {s : State} (h : TaskInv s) (lvl : Nat) (cb : Bool) :
-    TaskInv { s with undo := s.undo ++ [{ id := s.nextTask, lvl := lvl, cb := cb }], nextTask := s.nextTask + 1 } := by
+    TaskInv { s with undo := s.undo ++ [{ id := s.nextTask, lvl := lvl, cb := cb }], nextTask := s.nextTask + 1, pend := true } := by
   have fresh : Fresh s s.nextTask :=
     ⟨fun hh => Nat.lt_irrefl _ (h.deadLt _ (Or.inl hh)),
      fun hh => Nat.lt_irrefl _ (h.deadLt _ (Or.inr (Or.inl hh))),
@@ -67,6 +67,7 @@ theorem TaskInv.execute {s : State} (h : TaskInv s) (lvl : Nat) (cb : Bool) :
   · exact h.noPicked
   · intro id hid; exact Nat.lt_succ_of_lt (h.deadLt id hid)
   · exact h.ranExcl
+  · exact h.canDrp
 
 /-- a not-found answer (status = not found / cancel = 1) recorded for an id that is neither waiting
 nor in the running set -/
@@ -109,6 +110,7 @@ theorem TaskInv.addNf {s : State} (h : TaskInv s) {id : Nat} (hu : inUndo s id =
     obtain ⟨a, b, c⟩ := h.ranExcl i hi
     refine ⟨a, b, ?_⟩
     simp only [List.mem_cons, not_or]; exact ⟨fun e => hr (e ▸ hi), c⟩
+  · exact h.canDrp
 
 theorem TaskInv.cancelOk {s : State} (h : TaskInv s) {id : Nat} (hu : inUndo s id = true) :
     TaskInv { s with undo := removeId s.undo id, cancelled := id :: s.cancelled } := by
@@ -146,6 +148,10 @@ theorem TaskInv.cancelOk {s : State} (h : TaskInv s) {id : Nat} (hu : inUndo s i
     obtain ⟨a, b, c⟩ := h.ranExcl i hi
     refine ⟨?_, b, c⟩
     simp only [List.mem_cons, not_or]; exact ⟨fun e => hf0.ran (e ▸ hi), a⟩
+  · intro i hi
+    rcases List.mem_cons.1 hi with rfl | hi
+    · exact hf0.drp
+    · exact h.canDrp i hi
 
 theorem TaskInv.cleanup1 {s : State} (h : TaskInv s) :
     TaskInv { s with dropped := s.undo.map (·.id) ++ s.dropped, undo := [], vec := s.cab, cab := [], phase1 := true } := by
@@ -184,6 +190,11 @@ theorem TaskInv.cleanup1 {s : State} (h : TaskInv s) :
     · obtain ⟨u, hu, e⟩ := List.mem_map.1 hm
       exact (h.undoFresh u hu).ran (e ▸ hi)
     · exact b hm
+  · intro i hi hm
+    rcases List.mem_append.1 hm with hm | hm
+    · obtain ⟨u, hu, e⟩ := List.mem_map.1 hm
+      exact (h.undoFresh u hu).can (e ▸ hi)
+    · exact h.canDrp i hi hm
 
 /-! ### worker steps -/
 
@@ -237,6 +248,7 @@ theorem TaskInv.pick {s : State} (h : TaskInv s) (w : Nat) {t : Tk} (ht : t ∈ 
     · simp only [hw, ↓reduceIte] at hi; exact h.noPicked i u hi
   · exact h.deadLt
   · exact h.ranExcl
+  · exact h.canDrp
 
 theorem TaskInv.afterPred {s : State} (h : TaskInv s) (w : Nat) : TaskInv (afterPred s w) := by
   unfold Tbox.C05.afterPred
@@ -303,6 +315,7 @@ theorem TaskInv.runBody {s : State} (h : TaskInv s) (w : Nat) {t : Tk} (hp : s.p
     rcases hi with rfl | hi
     · exact ⟨hfw.can, hfw.drp, hfw.nf⟩
     · exact h.ranExcl i hi
+  · exact h.canDrp
 
 /-- `postCb t → finishing t` (the worker keeps the task, the body has already run) -/
 theorem TaskInv.keep {s s0 : State} (h : TaskInv s0) (w : Nat) {t : Tk} (hp : s0.pc w = .postCb t)
@@ -342,6 +355,7 @@ theorem TaskInv.keep {s s0 : State} (h : TaskInv s0) (w : Nat) {t : Tk} (hp : s0
     · simp only [hw, ↓reduceIte] at hi; exact hs.noPicked i u hi
   · exact hs.deadLt
   · exact hs.ranExcl
+  · exact hs.canDrp
 
 theorem TaskInv.finish {s : State} (h : TaskInv s) (w : Nat) {t : Tk} (hp : s.pc w = .finishing t) :
     TaskInv (setPc { s with doing := s.doing.filter (· != t.id) } w .start) := by
@@ -367,6 +381,7 @@ theorem TaskInv.finish {s : State} (h : TaskInv s) (w : Nat) {t : Tk} (hp : s.pc
     · exact h.noPicked
     · exact h.deadLt
     · exact h.ranExcl
+    · exact h.canDrp
   exact h1.setPc_none w rfl
 
 theorem cancelAns_cases (s : State) (id : Nat) :
@@ -437,18 +452,28 @@ theorem TaskInv.step {s : State} (h : TaskInv s) (st : Step) (hv : valid s st = 
     · right; simp [hw, PC.task?]
     · left; simp [hw]
   | join w => exact h.of_eq rfl rfl rfl rfl rfl rfl rfl rfl rfl
+  | notifyOne ow =>
+    cases ow with
+    | none => exact h.of_eq rfl rfl rfl rfl rfl rfl rfl rfl rfl
+    | some w =>
+      refine TaskInv.setPc_none ?_ w rfl
+      exact h.of_eq rfl rfl rfl rfl rfl rfl rfl rfl rfl
+  | threadEnd w => exact h.setPc_none w rfl
   | cleanupRet => exact h.of_eq rfl rfl rfl rfl rfl rfl rfl rfl rfl
   | loopRun =>
     simp only [Tbox.C05.step]
     split
     · exact h
     · exact h.of_eq rfl rfl rfl rfl rfl rfl rfl rfl rfl
-    · exact h.of_eq rfl rfl rfl rfl rfl rfl rfl rfl rfl
+    · split <;> exact h.of_eq rfl rfl rfl rfl rfl rfl rfl rfl rfl
     · exact h.of_eq rfl rfl rfl rfl rfl rfl rfl rfl rfl
   | enter w =>
     simp only [Tbox.C05.step]
     split
-    · exact h.setPc_none w rfl
+    · split
+      · refine TaskInv.setPc_none ?_ w rfl
+        exact h.of_eq rfl rfl rfl rfl rfl rfl rfl rfl rfl
+      · exact h.setPc_none w rfl
     · exact (h.of_eq (s' := { s with idle := s.idle + 1 }) rfl rfl rfl rfl rfl rfl rfl rfl rfl).afterPred w
   | block w => exact (h.of_eq (s' := { s with lock := false }) rfl rfl rfl rfl rfl rfl rfl rfl rfl).setPc_none w rfl
   | wake w => exact h.setPc_none w rfl
@@ -479,12 +504,15 @@ theorem TaskInv.step {s : State} (h : TaskInv s) (st : Step) (hv : valid s st = 
   | selfRemove w =>
     simp only [Tbox.C05.step]
     split
-    · refine TaskInv.setPc_none ?_ _ rfl
+    · refine TaskInv.setPc_none ?_ w rfl
       exact h.of_eq rfl rfl rfl rfl rfl rfl rfl rfl rfl
     · split
-      · exact h.setPc_none w rfl
-      · refine TaskInv.setPc_none ?_ _ rfl
+      · refine TaskInv.setPc_none ?_ w rfl
         exact h.of_eq rfl rfl rfl rfl rfl rfl rfl rfl rfl
+      · split
+        · exact h.setPc_none w rfl
+        · refine TaskInv.setPc_none ?_ w rfl
+          exact h.of_eq rfl rfl rfl rfl rfl rfl rfl rfl rfl
 
 theorem TaskInv.init (c : Cfg) (hc : c.fixA = true) : TaskInv (init c) := by
   constructor
@@ -500,6 +528,7 @@ theorem TaskInv.init (c : Cfg) (hc : c.fixA = true) : TaskInv (init c) := by
   · intro w t hw; simp only [Tbox.C05.init] at hw; split at hw <;> cases hw
   · intro id hid; simp [Tbox.C05.init, State.ranIds] at hid
   · intro id hid; simp [Tbox.C05.init, State.ranIds] at hid
+  · intro id hid; simp [Tbox.C05.init] at hid
 
 theorem TaskInv.exec {s : State} (h : TaskInv s) (sts : List Step) (s' : State) (he : exec s sts = some s') :
     TaskInv s' := by
